@@ -22,10 +22,10 @@ def configs(tier, seed):
     T = _tier(tier)
     out = []
     for main_dir in ("server", "client"):
-        for transform in ("cuts", "cuts+dup", "cuts+reorder"):
+        for transform in ("cuts", "cuts+dup", "cuts+reorder", "cuts+coalesced"):
             for isn in ("any", "near-wrap"):
                 for nrec in range(1, T["R"] + 1):
-                    for ncuts in range(0, T["cuts"] + 1):
+                    for ncuts in range(1 if transform == "cuts+coalesced" else 0, T["cuts"] + 1):
                         out.append({"name": "%s-%s-%s-r%d-c%d" % (main_dir, transform, isn, nrec, ncuts), "harness": "segmentation",
                                     "main": main_dir, "transform": transform, "isn": isn, "mode": "real", "nrec": nrec,
                                     "ncuts": ncuts, **T})
@@ -36,11 +36,12 @@ def bounds(tier):
     T = _tier(tier)
     return {"records in the stream under test": "<= %d, payload 0..%d bytes each, every type/version/content byte symbolic" % (T["R"], T["P"]),
             "cut points": "every set of <= %d cut points (solver-chosen, all positions)" % T["cuts"],
-            "duplicates": "<= %d exact duplicate of any segment re-inserted at any later position" % T["dups"],
+            "duplicates": "<= %d exact duplicate of any segment re-inserted at any later position; or one coalesced retransmission (a segment together "
+                          "with its successor in one packet, same sequence number as the first) at any position after the first of the two" % T["dups"],
             "reordering": "one segment displaced by <= %d places within its direction" % T["disp"],
             "ISN": "whole 32-bit space; 'near-wrap' configurations constrain it so that the stream crosses 2^32",
             "other direction": "one record in one segment at a solver-chosen position of the interleaving",
-            "outside": "overlapping retransmissions with different boundaries, keep-alives, more than one transformation at once"}
+            "outside": "retransmissions that start inside an earlier segment or arrive before the data they repeat, keep-alives, more than one transformation at once"}
 
 
 class Pkt:
@@ -85,6 +86,11 @@ def _plan(cfg, choose):
         which = choose("dup_which", list(range(len(segs))))
         pos = choose("dup_pos", list(range(which + 1, len(order) + 1)))
         order.insert(pos, which)
+    elif cfg["transform"] == "cuts+coalesced" and len(segs) >= 2:
+        # a retransmission that carries segment `which` and its successor in one packet: index len(segs) + which
+        which = choose("co_which", list(range(len(segs) - 1)))
+        pos = choose("co_pos", list(range(which + 1, len(order) + 1)))
+        order.insert(pos, len(segs) + which)
     elif cfg["transform"] == "cuts+reorder" and len(segs) >= 2:
         which = choose("move_which", list(range(len(segs))))
         dist = choose("move_dist", [d for d in range(-cfg["disp"], cfg["disp"] + 1) if d != 0 and 0 <= which + d < len(segs)] or [0])
@@ -92,6 +98,13 @@ def _plan(cfg, choose):
         order.insert(which + dist, which)
     other_pos = choose("other_pos", list(range(0, len(order) + 1)))
     return nrec, lens, total, segs, order, other_pos
+
+
+def seg_range(segs, si):
+    """byte range of delivery unit si: a segment, or (si >= len(segs)) the coalesced retransmission of a segment and its successor"""
+    if si >= len(segs):
+        return segs[si - len(segs)][0], segs[si - len(segs) + 1][1]
+    return segs[si]
 
 
 def _build(cfg, plan, rec_bytes, other_bytes, isn_main, isn_other):
@@ -103,7 +116,7 @@ def _build(cfg, plan, rec_bytes, other_bytes, isn_main, isn_other):
         stream = stream + r
     pkts = []
     for k, si in enumerate(order):
-        a, b = segs[si]
+        a, b = seg_range(segs, si)
         seq = (isn_main + a) & 0xFFFFFFFF
         pkts.append(Pkt(main_server, seq, stream[a:b], 100.0 + k, "main%d" % si))
     pkts.insert(other_pos, Pkt(not main_server, isn_other & 0xFFFFFFFF, other_bytes, 99.5, "other"))
@@ -142,11 +155,11 @@ def _ooo_event(s, got, plan, main_server):
         if not r.metadata or not r.metadata[0].tag.startswith("main"):
             continue
         first = r.metadata[0]
-        start = segs[int(first.tag[4:])][0]
+        start = seg_range(segs, int(first.tag[4:]))[0]
         seen = set()
         for p in processed[:r.step]:
             if p.tag.startswith("main"):
-                a, b = segs[int(p.tag[4:])]
+                a, b = seg_range(segs, int(p.tag[4:]))
                 seen.update(range(a, b))
         if any(o not in seen for o in range(0, start)):
             return True
